@@ -49,6 +49,9 @@ func ones(n int) []int {
 func dftScenario(d dftCase) engine.Scenario {
 	name := d.name()
 	return engine.Scenario{Name: name, Bound: -1, Fn: func(c *engine.Chooser) {
+		if recordingSkipsID("dft-id/"+name, name) {
+			return
+		}
 		uni.Seed(c, name)
 		// chain: one 55-bit base prime, then one 45-bit prime per DFT level (scale 2^45)
 		logQ := []int{55}
@@ -257,6 +260,9 @@ func asinTaylor(y float64, d int) float64 {
 func mod1Scenario(m mod1Case) engine.Scenario {
 	name := m.name()
 	return engine.Scenario{Name: name, Bound: -1, Fn: func(c *engine.Chooser) {
+		if recordingSkipsID("mod1/"+name, name) {
+			return
+		}
 		uni.Seed(c, name)
 		lit := mod1.ParametersLiteral{LogScale: 60, Mod1Type: m.typ, LogMessageRatio: m.ratio, K: m.K, Mod1Degree: m.deg,
 			DoubleAngle: m.dblAngle, Mod1InvDegree: m.invDeg}
@@ -294,6 +300,10 @@ func mod1Scenario(m mod1Case) engine.Scenario {
 		// value = I·Q + m with Q = QDiff·MessageRatio, exactly as the library's test builds its inputs
 		Q := mp.QDiff * mp.MessageRatio()
 		ms := []float64{-1, -0.75, -1.0 / 3, -1.0 / 1024, 0, 1.0 / 4096, 0.5, 0.999}
+		if c.Tier == "thorough" && m.logN >= 8 {
+			// the LogN 8 scenarios exist in the thorough tier only: a denser ladder there leaves every other key's calibration untouched
+			ms = []float64{-1, -0.9, -0.75, -0.6, -0.5, -1.0 / 3, -0.2, -1.0 / 16, -1.0 / 1024, 0, 1.0 / 4096, 1.0 / 64, 0.125, 0.25, 0.4, 0.5, 2.0 / 3, 0.8, 0.95, 0.999}
+		}
 		type pnt struct{ I, m float64 }
 		var grid []pnt
 		for I := -(m.K - 1); I <= m.K-1; I++ {
@@ -383,13 +393,21 @@ func mod1Scenario(m mod1Case) engine.Scenario {
 func mod1Scenarios(tier string) []engine.Scenario {
 	var scs []engine.Scenario
 	logNs := []int{6}
+	Ks := []int{12, 16, 25}
+	ratios := []int{4, 8}
+	invs := []int{0, 5, 7}
 	if tier == "thorough" {
+		// denser: more interval widths (incl. the K=40 a dense H=512 secret needs), message ratios and arcsine degrees,
+		// every double-angle count for each; LogN 8 adds full 128-slot ciphertexts
 		logNs = []int{6, 8}
+		Ks = []int{8, 12, 16, 25, 40}
+		ratios = []int{4, 6, 8, 10}
+		invs = []int{0, 3, 5, 7, 9}
 	}
 	for _, logN := range logNs {
-		for _, K := range []int{12, 16, 25} {
-			for _, ratio := range []int{4, 8} {
-				for _, inv := range []int{0, 5, 7} {
+		for _, K := range Ks {
+			for _, ratio := range ratios {
+				for _, inv := range invs {
 					// SinContinuous ignores DoubleAngle (documented)
 					scs = append(scs, mod1Scenario(mod1Case{logN, mod1.SinContinuous, K, ratio, 0, inv, contDegree(float64(K))}))
 					for da := 0; da <= 3; da++ {
